@@ -39,6 +39,7 @@ class Opts:
         self.at_line_start = False  # every @block starts on its own line
         self.key_prefix = ""        # prepended to generated entry/string keys (disjoint pools)
         self.big = 0.0              # probability of a big entry (10-40 fields) / big document (50-200 items)
+        self.repeat = 0.05          # probability that a comment/preamble repeats the exact text of an earlier one
         self.__dict__.update(kw)
 
 
@@ -66,10 +67,17 @@ def _no_trailing_backslash(s):
 
 
 def body(r, opts, depth, in_quote=False):
+    from . import dictionary
+    lits = dictionary.literals(safe_for_grammar=True)
     out = []
+    if lits and r.random() < 0.04:
+        # a literal text taken from the repository's own source, at the very start of the body
+        out.append(r.choice(lits) + r.choice(["", " ", ": ", ":"]))
     for _ in range(r.randint(0, 5)):
         k = r.random()
-        if k < .42:
+        if lits and k < .03:
+            out.append(r.choice(lits))
+        elif k < .42:
             out.append("".join(r.choice(PLAIN) for _ in range(r.randint(1, 4))))
         elif k < .52 and opts.escapes:
             out.append(r.choice(ESCAPES))
@@ -119,9 +127,18 @@ def value(r, opts):
     return out
 
 
+NFC_VARIANTS = ["Andr\u00e9", "Andre\u0301", "\u00c5ngstr", "A\u030angstr", "\u212bngstr", "\u1e9b\u0323", "\u1e9b\u0323".encode().decode(), "\ufb01x", "fix"]
+
+
 def key(r, used, pool=None, prefix=""):
     if pool is not None:
         return r.choice(pool)
+    if r.random() < 0.03:
+        # keys that are different strings but canonically equivalent / compatibility-equivalent Unicode
+        for k in r.sample(NFC_VARIANTS, len(NFC_VARIANTS)):
+            if prefix + k not in used:
+                used.add(prefix + k)
+                return prefix + k
     while True:
         k = prefix + "".join(r.choice(KEYCH) for _ in range(r.randint(1, 8) if r.random() < 0.99 else r.randint(257, 300)))
         if r.random() < .1:
@@ -203,6 +220,7 @@ def document(r, opts=None):
     truth = []
     parts = [r.choice(["", "", "\n", " ", "\n\n"])]
     prev_free = True   # two free texts are never adjacent; also none directly at the start by chance only
+    seen_items = []
     n_items = r.randint(opts.min_items, opts.max_items)
     if opts.big and r.random() < opts.big:
         n_items = r.randint(50, 200) if r.random() < 0.8 else r.randint(257, 320)
@@ -223,6 +241,11 @@ def document(r, opts=None):
             if prev_free or not opts.freetext:
                 continue
             t, g = freetext(r, opts)
+        if kind in ("preamble", "ecomment", "icomment") and r.random() < opts.repeat:
+            same = [(tt, gg) for tt, gg in seen_items if gg[0] == g[0]]
+            if same:
+                t, g = r.choice(same)
+        seen_items.append((t, g))
         sep = r.choice(["\n", "\n", "\n\n", " ", "", "\r\n" if opts.crlf else "\n", "\n \n", "\t"])
         if opts.at_line_start and "\n" not in sep:
             sep = "\n"
